@@ -374,10 +374,11 @@ CLOSED = [
     ("closed-CONS", f"forall(i, 0, {L}, self.sCount[i] >= 0 and self.sCount[i] == PhysCol(self.src, self.bMarks[i] + self.tShift[i]))"),
     ("closed-linestart", f"forall(i, 0, {L}, self.bMarks[i] == 0 or self.src[self.bMarks[i] - 1] == '\\n')"),
     ("closed-WF4", f"forall(i, 0, {L} - 1, self.eMarks[i] < {N})"),
+    ("closed-WF6", f"forall(i, 0, {L}, forall(k, self.bMarks[i], self.bMarks[i] + self.tShift[i], self.src[k] == ' ' or self.src[k] == '\\t'))"),
     ("closed-WF5", f"forall(i, 0, {L}, implies(self.bMarks[i] + self.tShift[i] < self.eMarks[i], not (self.src[self.bMarks[i] + self.tShift[i]] == ' ' or self.src[self.bMarks[i] + self.tShift[i]] == '\\t')))"),
 ]
 add(Contract(
-    SB + "__init__", params={"self": "obj:StateBlock", "src": "str", "md": "obj:MarkdownIt", "env": "opaque", "tokens": "tokseq"}, props=["C01", "C03", "C17"],
+    SB + "__init__", params={"self": "obj:StateBlock", "src": "str", "md": "obj:MarkdownIt", "env": "opaque", "tokens": "tokseq"}, props=["C01", "C03", "C17", "C08"],
     ghost={"thorough_only": ["lines-cover-source", "covered", "open-closed-at-end"]},
     ensures=[
         ("WF1-len-e", f"len(self.eMarks) == {L}", ["C01", "C03"]), ("WF1-len-t", f"len(self.tShift) == {L}", ["C01"]), ("WF1-len-s", f"len(self.sCount) == {L}", ["C01"]),
@@ -387,6 +388,8 @@ add(Contract(
         ("WF3", f"forall(i, 0, {L} - 1, implies(self.eMarks[i] < {N}, self.src[self.eMarks[i]] == '\\n'))", ["C01"]),
         ("WF4", f"forall(i, 0, {L} - 2, self.eMarks[i] < {N})", ["C01"]),
         ("WF5", f"forall(i, 0, {L} - 1, implies(self.bMarks[i] + self.tShift[i] < self.eMarks[i], not (self.src[self.bMarks[i] + self.tShift[i]] == ' ' or self.src[self.bMarks[i] + self.tShift[i]] == '\\t')))", ["C01"]),
+        # C08: what a fresh state calls a line's indentation (and getLines may therefore cut away) is spaces and tabs only
+        ("WF6-indentation-is-blanks", f"forall(i, 0, {L} - 1, forall(k, self.bMarks[i], self.bMarks[i] + self.tShift[i], self.src[k] == ' ' or self.src[k] == '\\t'))", ["C08", "C17"]),
         ("CONS", f"forall(i, 0, {L} - 1, self.bsCount[i] == 0 and self.sCount[i] >= 0 and self.bsCount[i] + self.sCount[i] == PhysCol(self.src, self.bMarks[i] + self.tShift[i]))", ["C17", "C06"]),
         ("lines-cover-source", f"forall(p, 0, {N}, exists(i, 0, {L} - 1, self.bMarks[i] <= p and p <= self.eMarks[i]) or forall(k, p, {N}, self.src[k] == ' ' or self.src[k] == '\\t'))", ["C03"]),
         ("fresh-context", "self.blkIndent == 0 and self.line == 0 and self.level == 0 and self.parentType == 'root' and self.src == src", ["C07", "C12"]),
